@@ -46,9 +46,13 @@ GRV_CMD(gdl) {
         std::vector<int> dl = dirs; if (v->has("dirs")) for (auto &d : (*v)["dirs"].a) dl.push_back(int(d->num()));
         gr_feature_val *fv = 0;
         if (v->has("feats") && !(*v)["feats"].a.empty()) {
-            fv = gr_face_featureval_for_lang(face, 0);
-            size_t fi = 0;
-            for (auto &x : (*v)["feats"].a) { const gr_feature_ref *fr = gr_face_fref(face, gr_uint16(fi++)); if (fr && fv) gr_fref_set_feature_value(fr, gr_uint16(x->num()), fv); }
+            // the program's features follow "featpad" others; with padding, every other case builds the values sparsely:
+            // an empty object (gr_featureval_clone(NULL)) in which only the non-zero values are set - the rest reads 0
+            const size_t pad = size_t(v->get("featpad", 0));
+            const bool sparse = pad && (g_cases & 1);
+            fv = sparse ? gr_featureval_clone(0) : gr_face_featureval_for_lang(face, 0);
+            size_t fi = pad;
+            for (auto &x : (*v)["feats"].a) { const gr_feature_ref *fr = gr_face_fref(face, gr_uint16(fi++)); if (fr && fv && !(sparse && x->num() == 0)) gr_fref_set_feature_value(fr, gr_uint16(x->num()), fv); }
         }
         for (int dir : dl) {
             GRV_WATCHDOG;
